@@ -9,6 +9,7 @@
   (5) Apalache: inductive invariant of the cursor-level model for symbolic capacity (ChannelCursors).
 """
 import json, os, sys, time, concurrent.futures as cf
+import random
 from vlib import *
 
 RULES = {
@@ -165,6 +166,9 @@ def judge(chk, prop, traces, workdir, kind, exe):
 def replay_script(prop, path):
     """./check C01 --replay file : re-run a saved witness on the real code and re-judge it."""
     obj = json.load(open(path))["replay"]
+    if obj.get("kind") == "chan_conc":       # a witness of the concurrent family
+        import chk_chanconc
+        return chk_chanconc.replay_script(prop, path)
     bdir = build_dir("replay_" + prop)
     exe = build_seq(bdir)
     opsf = os.path.join(bdir, "ops.txt")
@@ -335,4 +339,7 @@ def main(prop, tier):
             os.remove(f)
         except OSError:
             pass
+    # ---- concurrent family: the same clauses on executions with a writer that sleeps and is woken again -------------------
+    import chk_chanconc
+    chk_chanconc.concurrent_family(chk, prop, bdir, 1500 if thorough else 400, random.Random(sd * 13 + 5))
     return chk.finish()
